@@ -23,17 +23,21 @@ from ..report import Report
 
 KEEP = 0
 SEEDS = {1: 11, 2: 20170519}
-LEN = {1: 1.0, 2: 2.5}
+LEN = {1: 1.0, 2: 2.5, 3: 1.7}
+BIG = 6.5e5      # offset of the "big coordinates" variant: positions 1.5 apart are numpy.allclose there
 MEAN = {1: 0.0, 2: 1.5}
 MODE_NO = 8
+
+
+OFF = [0.0]
 
 
 def cond_pos(tok, dim):
     a = {1: [0.0, 2.0, 5.0], 2: [1.0, 3.0, 6.5]}[tok]
     if dim == 1:
-        return [np.array(a)]
+        return [np.array(a) + OFF[0]]
     b = {1: [0.0, 1.0, 0.5], 2: [2.0, 0.0, 1.5]}[tok]
-    return [np.array(a), np.array(b)]
+    return [np.array(a) + OFF[0], np.array(b) + OFF[0]]
 
 
 def cond_val(tok):
@@ -42,26 +46,33 @@ def cond_val(tok):
 
 def target(tok, dim, cpos_all):
     """Target points: a few free points plus every conditioning location of both tokens."""
+    shift = 1.5 if tok == 3 else 0.0      # token 3: token 1 moved by 1.5 (allclose to it under the BIG offset)
+    tok = 1 if tok == 3 else tok
     free = {1: [0.5, 1.5, 4.0, 40.0], 2: [0.25, 2.75, 7.0, 60.0]}[tok]
-    xs = list(free) + [v for cp in cpos_all for v in cp[0]]
+    xs = [v + OFF[0] + shift for v in free] + [v + shift for cp in cpos_all for v in cp[0]]
     if dim == 1:
         return [np.array(xs)]
     free_y = {1: [0.3, 0.7, 1.1, 40.0], 2: [1.3, 0.2, 0.9, 60.0]}[tok]
-    ys = list(free_y) + [v for cp in cpos_all for v in cp[1]]
+    ys = [v + OFF[0] for v in free_y] + [v for cp in cpos_all for v in cp[1]]
     return [np.array(xs), np.array(ys)]
 
 
 class Real:
-    def __init__(self, gs, variant, dim, cfg, seed):
-        self.gs, self.variant, self.dim = gs, variant, dim
+    def __init__(self, gs, variant, dim, cfg, seed, nugget=0.0):
+        self.gs, self.variant, self.dim, self.nugget = gs, variant, dim, nugget
         self.c = self.build(cfg, seed)
 
     def model(self, tok):
-        return self.gs.Gaussian(dim=self.dim, var=2.0, len_scale=LEN[tok])
+        kw = dict(dim=self.dim, var=2.0, len_scale=LEN[tok], nugget=self.nugget)
+        if tok == 3 and self.dim > 1:
+            kw.update(anis=0.4, angles=0.5)
+        return self.gs.Gaussian(**kw)
 
     def krige(self, cfg):
         gs = self.gs
         kw = dict(cond_pos=cond_pos(cfg["cpos"], self.dim), cond_val=cond_val(cfg["cval"]))
+        if self.nugget > 0:
+            kw["exact"] = True
         if self.variant == "Simple":
             return gs.krige.Simple(self.model(cfg["model"]), mean=MEAN[cfg["mean"]], **kw)
         # ordinary kriging has no mean argument: the token drives a constant trend instead
@@ -82,13 +93,20 @@ class Real:
         if n == "SetPos":
             c.set_pos(target(op["p"], self.dim, cpos_all))
         elif n == "SetCondition":
-            if op["refresh"]:
+            if op["form"] == "none":
                 c.krige.set_condition()
+            elif op["form"] == "val":
+                c.krige.set_condition(cond_val=cond_val(op["cv"]))
+            elif op["form"] == "pos":
+                c.krige.set_condition(cond_pos=cond_pos(op["cp"], self.dim))
             else:
                 c.krige.set_condition(cond_pos(op["cp"], self.dim), cond_val(op["cv"]))
         elif n == "ChangeModel":
             if op["how"] == "inplace":
                 c.model.len_scale = LEN[op["m"]]
+                if self.dim > 1:
+                    c.model.anis = 0.4 if op["m"] == 3 else 1.0
+                    c.model.angles = 0.5 if op["m"] == 3 else 0.0
             else:
                 c.model = self.model(op["m"])
         elif n == "ChangeMean":
@@ -116,11 +134,13 @@ def since_last_compare(hist):
     return "+".join(out) or "none"
 
 
-def replay(col, gs, variant, dim, beh, origin):
+def replay(col, gs, variant, dim, beh, origin, nugget=0.0, big=False):
+    OFF[0] = BIG if big else 0.0
     st0 = beh[0]
     cpos_all = [cond_pos(1, dim), cond_pos(2, dim)]
-    r = Real(gs, variant, dim, st0["cfg"], st0["seed"])
+    r = Real(gs, variant, dim, st0["cfg"], st0["seed"], nugget)
     hist, ncmp = [], 0
+    vtag = "%s%s%s" % (variant, ":nugget" if nugget else "", ":bigcoords" if big else "")
     for st in beh[1:]:
         op = st["op"]
         hist.append(op)
@@ -129,45 +149,57 @@ def replay(col, gs, variant, dim, beh, origin):
             continue
         ncmp += 1
         cfg, seed, ptok = op["cfg"], op["seed"], op["pos"]
-        rp = {"variant": variant, "dim": dim, "init": {"cfg": st0["cfg"], "seed": st0["seed"]}, "ops": list(hist), "origin": origin}
-        sig = "%s:%s" % (variant, since_last_compare(hist))
+        rp = {"variant": vtag, "dim": dim, "init": {"cfg": st0["cfg"], "seed": st0["seed"]}, "ops": list(hist), "origin": origin}
+        sig = "%s:%s" % (vtag, since_last_compare(hist))
         f = np.array(out)
         # (1) the property's own oracle: a freshly built object
-        fresh = Real(gs, variant, dim, cfg, seed)
+        fresh = Real(gs, variant, dim, cfg, seed, nugget)
         pos = target(ptok, dim, cpos_all)
         ff = np.array(fresh.c(pos))
-        for name, a, b in (("field", f, ff), ("raw_krige", np.array(r.c["raw_krige"]), np.array(fresh.c["raw_krige"])),
-                           ("krige_var", np.array(r.c.krige["krige_var"]), np.array(fresh.c.krige["krige_var"]))):
+        pairs = [("raw_krige", np.array(r.c["raw_krige"]), np.array(fresh.c["raw_krige"])),
+                 ("krige_var", np.array(r.c.krige["krige_var"]), np.array(fresh.c.krige["krige_var"]))]
+        if nugget == 0:
+            # with a nugget the noise drawn depends on how often the stream was used before (C11: nugget-free clause)
+            pairs.insert(0, ("field", f, ff))
+        for name, a, b in pairs:
             if a.shape != b.shape or not np.allclose(a, b, rtol=0, atol=1e-9):
                 col.violation("stale:%s:%s" % (name, sig),
                               "CondSRF(%s, dim %d): %s after %s differs from a freshly built object (max |d| = %.3g)"
-                              % (variant, dim, name, [tlaval.to_tla(o) for o in hist[-4:]],
+                              % (vtag, dim, name, [tlaval.to_tla(o) for o in hist[-4:]],
                                  float(np.max(np.abs(a - b))) if a.shape == b.shape else float("nan")), rp)
                 return ncmp
-        # (2) independent assembly: mean + krige + sqrt(krige_var/var) * unconditional field
+        # (2) independent assembly (evaluated on the fresh object, whose noise stream position is known):
+        #     mean + krige + sqrt(max(kvar - nugget, 0)/var) * unconditional field + scaled nugget noise
         k = fresh.krige(cfg)
         kf, kv = k(pos, post_process=False)
-        raw = gs.SRF(fresh.model(cfg["model"]), seed=SEEDS[seed], mode_no=MODE_NO)(pos)
+        model = fresh.model(cfg["model"])
+        gen = gs.field.generator.RandMeth(model, mode_no=MODE_NO, seed=SEEDS[seed])
+        raw = gen(model.isometrize(np.array(pos)), add_nugget=False)
         mean = MEAN[cfg["mean"]]   # constant mean (simple) resp. constant trend (ordinary) added back by post-processing
-        expect = mean + kf + np.sqrt(kv / 2.0) * raw
-        if not np.allclose(f, expect, rtol=0, atol=1e-8):
-            col.violation("formula:%s" % variant,
-                          "CondSRF(%s, dim %d): field != mean + krige + sqrt(krige_var/var) * unconditional field of the same seed (max |d| = %.3g)"
-                          % (variant, dim, float(np.max(np.abs(f - expect)))), rp)
+        if nugget > 0:
+            vs = np.maximum(kv - nugget, 0)
+            noise = gen.get_nugget(raw.shape)           # first draw of the stream, sqrt(nugget) * N(0, 1)
+            expect = mean + kf + np.sqrt(vs / 2.0) * raw + np.sqrt((kv - vs) / nugget) * noise
+        else:
+            expect = mean + kf + np.sqrt(kv / 2.0) * raw
+        if not np.allclose(ff, expect, rtol=0, atol=1e-8):
+            col.violation("formula:%s" % vtag,
+                          "CondSRF(%s, dim %d): field != mean + krige + sqrt(krige_var/var) * unconditional field of the same seed (+ scaled nugget) (max |d| = %.3g)"
+                          % (vtag, dim, float(np.max(np.abs(ff - expect)))), rp)
             return ncmp
-        # (3) the data are honoured (zero measurement error)
+        # (3) the data are honoured (zero measurement error / exact kriging)
         cp = cond_pos(cfg["cpos"], dim)
         cv = cond_val(cfg["cval"])
         P = np.array(pos)
         for i in range(len(cv)):
-            j = np.where(np.all(np.isclose(P.T, np.array([c[i] for c in cp])), axis=1))[0]
-            if len(j) and abs(f[j[0]] - cv[i]) > 1e-7:
-                col.violation("data-not-honoured:%s" % variant,
+            j = np.where(np.all(np.isclose(P.T, np.array([c[i] for c in cp]), rtol=0, atol=1e-9), axis=1))[0]
+            if len(j) and abs(f[j[0]] - cv[i]) > 1e-6:
+                col.violation("data-not-honoured:%s" % vtag,
                               "CondSRF(%s, dim %d): field at conditioning location %d is %r, data value %r"
-                              % (variant, dim, i, float(f[j[0]]), float(cv[i])), rp)
+                              % (vtag, dim, i, float(f[j[0]]), float(cv[i])), rp)
                 return ncmp
         # (4) far from the data simple kriging tends to mean + unconditional field
-        if variant == "Simple":
+        if variant == "Simple" and nugget == 0:
             far = int(np.argmax(P[0]))
             if abs(f[far] - (mean + raw[far])) > 1e-6:
                 col.violation("far-field:Simple", "CondSRF(Simple, dim %d): far from the data field - (mean + raw) = %.3g"
@@ -177,7 +209,7 @@ def replay(col, gs, variant, dim, beh, origin):
 
 
 def mc_text(name, clear=True, size="mc"):
-    defs = {"CPos": "{1, 2}", "CVal": "{1, 2}", "Models": "{1, 2}", "Means": "{1, 2}", "Poss": "{1, 2}",
+    defs = {"CPos": "{1, 2}", "CVal": "{1, 2}", "Models": "{1, 2, 3}", "Means": "{1, 2}", "Poss": "{1, 2, 3}",
             "Seeds": "{1, 2}", "ClearOnSetCondition": "TRUE" if clear else "FALSE"}
     if size == "gen":
         defs.update({"CVal": "{1}", "Seeds": "{1}"})
@@ -197,18 +229,18 @@ class _Collect:
 
 
 def _work(job):
-    variant, dim, behs = job
+    variant, dim, nugget, big, behs = job
     warnings.simplefilter("ignore")
     import gstools as gs
 
     col = _Collect()
     out = {"traces": 0, "cmp": 0, "nontrivial": set(), "samples": []}
     for origin, sts in behs:
-        n = replay(col, gs, variant, dim, sts, origin)
+        n = replay(col, gs, variant, dim, sts, origin, nugget, big)
         out["traces"] += 1
         out["cmp"] += n
         if n:
-            out["nontrivial"].add(hash((variant, dim, tlaval.freeze([s["op"] for s in sts]))))
+            out["nontrivial"].add(hash((variant, dim, nugget, big, tlaval.freeze([s["op"] for s in sts]))))
         if not out["samples"] and origin == "simulate" and n:
             out["samples"].append({"variant": variant, "dim": dim, "ops": [tlaval.to_tla(s["op"]) for s in sts[1:]][:10]})
     out["violations"] = col.violations
@@ -264,11 +296,15 @@ def run(pid, tier, seed, replay=None):
         behs += [("simulate", [s for _a, s in b]) for b in tlc.read_sim_traces(sc.path("sim"), "S_cc")]
         behs = [b for b in behs if any(s["op"]["name"] == "Call" and s["op"]["compare"] for s in b[1][1:])]
     work = []
-    for variant in ("Simple", "Ordinary"):
-        for dim in (1, 2):
-            n = 8
-            for i in range(n):
-                work.append((variant, dim, behs[i::n]))
+    combos = [("Simple", 1, 0.0, False), ("Ordinary", 2, 0.0, False), ("Simple", 2, 0.3, False), ("Ordinary", 1, 0.0, True),
+              ("Simple", 2, 0.0, True)]
+    if thorough:
+        combos += [("Ordinary", 1, 0.0, False), ("Simple", 2, 0.0, False), ("Ordinary", 2, 0.3, False), ("Ordinary", 2, 0.0, True)]
+    for ci, (variant, dim, nugget, big) in enumerate(combos):
+        n = 6
+        sub = behs if thorough else behs[ci % 2::2]
+        for i in range(n):
+            work.append((variant, dim, nugget, big, sub[i::n]))
     import multiprocessing as mp
 
     with mp.get_context("fork").Pool(14) as pool:
